@@ -72,6 +72,7 @@ type obligation struct {
 	Clock   string `json:"clock"`
 	Codec   string `json:"codec"`
 	Ident   string `json:"ident"`
+	Via     string `json:"via"`
 	// c18
 	NNext int    `json:"nnext"`
 	NRefs int    `json:"nrefs"`
@@ -384,6 +385,20 @@ func (env *codecEnv) runC08(ob *obligation, variant int) codecRec {
 		rec.HErr, rec.Note = true, "harness: create: "+err.Error()
 		return rec
 	}
+	if ob.Via == "direct" {
+		// the caller assembles the signed entry itself and writes it as it is: the link lists keep the exact shape
+		// of the obligation (nil stays nil), nothing is normalised on the way to the encoder
+		raw := e.Copy()
+		raw.SetNext(c08Links(ob.Next, env))
+		raw.SetRefs(c08Links(ob.Refs, env))
+		h, err := entry.ToMultihashWithIO(env.ctx, raw, env.api, nil, io)
+		if err != nil {
+			rec.HErr, rec.Note = true, "harness: direct write: "+err.Error()
+			return rec
+		}
+		raw.SetHash(h)
+		e = raw
+	}
 	rec.CidStr = e.GetHash().String()
 	back, err := entry.FromMultihashWithIO(env.ctx, env.api, e.GetHash(), id.Provider, io)
 	if err != nil {
@@ -415,7 +430,14 @@ func (env *codecEnv) runC08(ob *obligation, variant int) codecRec {
 		rec.ReEncode = h2.Equals(e.GetHash())
 	}
 	// the same logical entry again
-	if e2, err := entry.CreateEntryWithIO(env.ctx, env.api, id, src, nil, io); err == nil {
+	if ob.Via == "direct" {
+		again := e.Copy()
+		again.SetNext(c08Links(ob.Next, env))
+		again.SetRefs(c08Links(ob.Refs, env))
+		if h3, err := entry.ToMultihashWithIO(env.ctx, again, env.api, nil, io); err == nil {
+			rec.Determ = h3.Equals(e.GetHash())
+		}
+	} else if e2, err := entry.CreateEntryWithIO(env.ctx, env.api, id, src, nil, io); err == nil {
 		rec.Determ = e2.GetHash().Equals(e.GetHash())
 	}
 	return rec
